@@ -21,7 +21,7 @@ REQUIRED_MONITORS = ["cycles==basquin_model", "load==basquin_model", "load(cycle
                      "non_increasing", "continuous_at_knee", "slope_k1_above", "slope_k2_below", "infinite_below_SD",
                      "miner:only_k2_changes", "miner:original_unaltered", "cycles_grow_with_probability", "N90/N10==TN",
                      "SD90/SD10==TS", "transform_composes", "transform_native_is_identity", "std<->T_inverse",
-                     "T==10^(2 z90 s)", "broadcast==elementwise_scalar", "probability_array==scalar_loop"]
+                     "T==10^(2 z90 s)", "broadcast==elementwise_scalar", "probability_array==scalar_loop", "fixed_probes==basquin_model"]
 RULE = ("seeded curves: k_1 in (1,15], k_2 in {inf, k_1, 2k_1-1, U(k_1,3k_1)}, SD 10..1000, ND 1e4..1e7, TN/TS each given or "
         "omitted (>= 1), native failure probability 0.5 or U(0.01,0.99), target probabilities in (0,1); loads on a log grid "
         "around SD incl. SD exactly and SD(1 +- 1e-9); scalar, array and indexed (broadcast) evaluation. The real accessor "
@@ -136,6 +136,16 @@ def run_case(case, ctx):
     wc = ser.woehler
     SD, ND = c["SD"], c["ND"]
     probs = [0.5] + case["p"]
+    # hidden state: another curve is asked the same fixed questions first (self-contained replay)
+    foil = ser.copy()
+    foil["SD"], foil["ND"], foil["k_1"] = ser["SD"] * 1.5, ser["ND"] * 0.5, ser["k_1"] * 1.25
+    if "k_2" in foil and np.isfinite(foil["k_2"]):
+        foil["k_2"] = foil["k_2"] * 1.25
+    for q_ in (0.5, 0.1):
+        foil.woehler.cycles(300.0, q_), foil.woehler.load(1e5, q_)
+    got_p = [float(np.asarray(wc.cycles(300.0, q_))) for q_ in (0.5, 0.1)] + [float(np.asarray(wc.load(1e5, q_))) for q_ in (0.5, 0.1)]
+    exp_p = [ref_cycles(c, 300.0, q_) for q_ in (0.5, 0.1)] + [ref_load(c, 1e5, q_) for q_ in (0.5, 0.1)]
+    ctx.check("fixed_probes==basquin_model", _close(got_p, exp_p, 1e-9), observed=got_p, expected=exp_p)
 
     for p in probs:
         SDp, NDp, _, _ = _shifted(c, p)
